@@ -197,7 +197,12 @@ def c09Eval : PropEval := fun i pre post =>
           if ordered && C09.sameMultiset (v.map totalKey) (w.map totalKey) then none
           else some "SORT must yield an ordered permutation of the vector"
         | _, _ => none)
-     | _, _ => none)
+     | _, _ =>
+       -- every other non-random vector instruction: the closed form of Spec/C09 (length + every element)
+       (match C09.vecExpect t o pre with
+        | some w => if encState post == encState w then none
+                    else some ("the documented result is " ++ encState w)
+        | none => none))
   | _, _ => none
 
 /-- the n-th point of `item` with the shallow type of `pat`, depth-first (C19 statement) -/
